@@ -47,6 +47,7 @@ func (s *loggedStorage) Remove(ctx context.Context, id uuid.UUID, seq uint32) (i
 }
 
 func (s *loggedStorage) List(ctx context.Context, id uuid.UUID) (map[uint32]iscp.DataPointGroups, error) {
+	s.d.b.HandlerHold("StorageList") // a slow storage (step holdHandler, mode StorageList): widens the window between two looks at the stream's state
 	return s.inner.List(ctx, id)
 }
 
